@@ -28,6 +28,7 @@ cd /verif
 git -C /repo apply $M/patch.diff || { echo "PATCH DOES NOT APPLY TO /repo"; exit 2; }
 mkdir -p /verif/seeded/$ID
 for P in $PROP $OTHERS; do
+  rm -rf /verif/replays/$P
   OUT=$(./check $P --tier quick 2>&1); RC=$?
   echo "--- $P exit=$RC"; echo "$OUT" | grep -E "VIOLATION|KNOWN|BROKEN|tier=" | cut -c1-400 | head -12
   echo "$OUT" > /verif/seeded/$ID/check-$P.log
